@@ -44,6 +44,9 @@ var c15Corpus = []struct {
 	{"D33-batch-index-negative", HTTPCase{Method: "POST", Target: "/graphql", Form: map[string]string{"operations": `[{"query":"{ me { firstName } }","variables":{"f":null}}]`, "map": `{"0":["-1.variables.f"]}`}, Files: map[string]string{"0": "x"}}},
 	{"D33-list-index-negative", HTTPCase{Method: "POST", Target: "/graphql", Form: map[string]string{"operations": `{"query":"{ me { firstName } }","variables":{"fs":[null]}}`, "map": `{"0":["variables.fs.-1"]}`}, Files: map[string]string{"0": "x"}}},
 	{"empty-path", HTTPCase{Method: "POST", Target: "/graphql", Form: map[string]string{"operations": `{"query":"{ me { firstName } }","variables":{"f":null}}`, "map": `{"0":[""]}`}, Files: map[string]string{"0": "x"}}},
+	{"blank-body-space", HTTPCase{Method: "POST", Target: "/graphql", ContentType: "application/json", Body: " "}},
+	{"blank-body-newline", HTTPCase{Method: "POST", Target: "/graphql", ContentType: "text/plain", Body: "\n"}},
+	{"blank-multipart-operations", HTTPCase{Method: "POST", Target: "/graphql", Form: map[string]string{"operations": " \n", "map": `{"0":["variables.f"]}`}, Files: map[string]string{"0": "x"}}},
 	{"get-ok", HTTPCase{Method: "GET", Target: "/graphql?query=" + url.QueryEscape(`{ me { firstName } }`)}},
 	{"get-bad-variables-good-extensions", HTTPCase{Method: "GET", Target: "/graphql?query=" + url.QueryEscape(`{ me { firstName } }`) + "&variables=true&extensions=" + url.QueryEscape(`{}`)}},
 	{"get-bad-variables", HTTPCase{Method: "GET", Target: "/graphql?query=" + url.QueryEscape(`{ me { firstName } }`) + "&variables=[1]"}},
@@ -180,6 +183,10 @@ func genHTTPCase(r *rand.Rand) HTTPCase {
 			}
 			hc.Body = string(nb)
 		}
+		if r.Intn(25) == 0 {
+			// nothing but white space (or nothing at all), also around an otherwise valid payload
+			hc.Body = []string{" ", "\n", "\t \r\n ", "", "  [ ]  ", " \n{\"query\":\"{ me { firstName } }\"}\n ", "\n[{\"query\":\"{ me { firstName } }\"}] "}[r.Intn(7)]
+		}
 	default: // multipart
 		hc.Method = "POST"
 		batch := r.Intn(3) == 0
@@ -211,6 +218,9 @@ func genHTTPCase(r *rand.Rand) HTTPCase {
 		}
 		mb, _ := json.Marshal(m)
 		hc.Form = map[string]string{"operations": string(ob), "map": string(mb)}
+		if r.Intn(30) == 0 {
+			hc.Form["operations"] = []string{" ", "\n", "", " \t "}[r.Intn(4)]
+		}
 		switch r.Intn(12) {
 		case 0:
 			hc.Form["map"] = `{`
